@@ -363,7 +363,14 @@ func (n *Tree[V]) findNode(path string, captures []string, matcher LookupMatcher
 
 			if pathLen >= childPathLen && child.path == path[:childPathLen] {
 				nextPath := path[childPathLen:]
-				found, idx, captures, backtrack = child.findNode(nextPath, captures, matcher)
+
+				var tmp []string
+
+				found, idx, tmp, backtrack = child.findNode(nextPath, captures, matcher)
+				if found != nil {
+					// the captures collected so far must survive a failed descent
+					captures = tmp
+				}
 			}
 
 			break
@@ -394,13 +401,15 @@ func (n *Tree[V]) findNode(path string, captures []string, matcher LookupMatcher
 
 	if n.catchAllChild != nil {
 		// Hit the catchall, so just assign the whole remaining path.
+		values := append(captures, path)
+
 		for idx, value = range n.catchAllChild.values {
-			if match := matcher.Match(value, n.wildcardKeys, captures); match {
-				return n.catchAllChild, idx, append(captures, path), false
+			if match := matcher.Match(value, n.catchAllChild.wildcardKeys, values); match {
+				return n.catchAllChild, idx, values, false
 			}
 		}
 
-		return nil, 0, captures, n.backtrackingEnabled
+		return nil, 0, captures, n.catchAllChild.backtrackingEnabled
 	}
 
 	return nil, 0, captures, true
